@@ -8,6 +8,7 @@ Requests (SEP = hex bytes | none; the empty separator of --heading is `-`)
   c08.seq  SEP TERM (blocks hex…)     -> hex   output of search over `blocks` in traversal order
   c08.join SEP TERM (blocks hex…)     -> hex   contract: non-empty blocks joined by SEP++TERM
   c08.files (blocks hex…)             -> hex   files_parallel
+  c08.parseh (lines hN|b|z …)         -> blocks […] gaps […] stray a b bad 0|1    the --heading grammar's cut
   c08.parse (lines s|dN …)            -> blocks [N:len …] gaps [k …] stray a b   the block grammar's cut
   c08.parf SEP (items (hex 0|1)…)     -> hex   search_parallel when some searches fail part-way (1 = failed)
   c08.seqf SEP TERM (items (hex 0|1)…)-> hex   search, ditto
@@ -42,6 +43,16 @@ def parseLine : Sx → Option Line
     | _ => none
   | _ => none
 
+/-- `hN` = path line of file N, `b` = result line, `z` = blank line -/
+def parseHLine : Sx → Option HLine
+  | .atom "b" => some (.body [])
+  | .atom "z" => some .blank
+  | .atom t =>
+    match t.toList with
+    | 'h' :: ds => (String.ofList ds).toNat?.map HLine.head
+    | _ => none
+  | _ => none
+
 def handle (cmd : String) (args : List Sx) : String :=
   match cmd, args with
   | "c08.par", [sep, bl] =>
@@ -70,6 +81,13 @@ def handle (cmd : String) (args : List Sx) : String :=
       let (blocks, gaps, stray, trailing) := parse ls
       let bs := " ".intercalate (blocks.map fun pb => s!"{pb.1}:{pb.2.length}")
       s!"blocks [{bs}] gaps [{natsToStr gaps}] stray {stray} {trailing}"
+    | none => "bad-op"
+  | "c08.parseh", [.list (.atom "lines" :: ls)] =>
+    match ls.mapM parseHLine with
+    | some ls =>
+      let (blocks, gaps, stray, trailing, bad) := parseH ls
+      let bs := " ".intercalate (blocks.map fun pb => s!"{pb.1}:{pb.2.length}")
+      s!"blocks [{bs}] gaps [{natsToStr gaps}] stray {stray} {trailing} bad {if bad then 1 else 0}"
     | none => "bad-op"
   | "c08.files", [bl] =>
     match parseBlocks bl with
